@@ -1,5 +1,5 @@
 //@unit sm2_ecc
-//@serves C03 C04 C05 C06 C11 C15 C19
+//@serves C03 C04 C05 C06 C11 C15 C19 C20
 //@source gm-sm2/src/p256_ecc.rs
 //@tables sm2
 //@lean sm2_point_dbl sm2_point_add sm2_is_valid sm2_is_valid_affine sm2_to_affine
